@@ -4,16 +4,11 @@
 (* for each kind of event.  Bytes travel as hex strings, numbers as hex    *)
 (* strings of their big-endian bytes (TLC integers are 32 bit).            *)
 (***************************************************************************)
-EXTENDS Spake2Core, Json, IOUtils
+EXTENDS TracePure
 
-T == JsonDeserialize(IOEnv.TRACE_FILE)
+T == PT
 
-HNum(h) == NFromBytes(HexToBytes(h))
-GroupOf(r) ==
-  IF r.kind = "int"
-  THEN [kind |-> "int", p |-> HNum(r.p), q |-> HNum(r.q), g |-> HNum(r.g)]
-  ELSE MkCurve(HNum(r.Q), HNum(r.d), HNum(r.L), HNum(r.By))
-GroupTable == [n \in DOMAIN T.groups |-> GroupOf(T.groups[n])]
+HNum(h) == PHNum(h)
 ParamTable == [n \in DOMAIN T.params |->
                  LET r == T.params[n]
                      g == GroupTable[r.grp]
@@ -131,5 +126,5 @@ EventVerdict(st, ev) ==
     [] ev.op = "serialize" -> VSerialize(st, ev)
     [] ev.op = "restore"   -> VRestore(st, ev)
     [] ev.op = "consts"    -> VConsts(st, ev)
-    [] OTHER               -> Bad("harness: unknown event " \o ev.op, "", st)
+    [] OTHER               -> LET r == PureVerdict(ev) IN [ok |-> r.ok, why |-> r.why, exp |-> r.exp, st |-> st]
 =============================================================================
